@@ -44,7 +44,6 @@ func FTP(options ...services.ServicerFunc) services.Servicer {
 
 	s := &ftpService{
 		Opts: Opts{},
-		recv: make(chan string),
 	}
 
 	for _, o := range options {
@@ -104,8 +103,6 @@ type ftpService struct {
 
 	FsRoot string `toml:"fs_base"`
 
-	recv chan string
-
 	c pushers.Channel
 }
 
@@ -115,10 +112,14 @@ func (s *ftpService) SetChannel(c pushers.Channel) {
 
 func (s *ftpService) Handle(ctx context.Context, conn net.Conn) error {
 
-	ftpConn := s.server.newConn(conn, s.driver, s.recv)
+	// the command log of this connection
+	recv := make(chan string)
+	defer close(recv)
+
+	ftpConn := s.server.newConn(conn, s.driver, recv)
 
 	go func() {
-		for msg := range s.recv {
+		for msg := range recv {
 			s.c.Send(event.New(
 				services.EventOptions,
 				event.Category("ftp"),
